@@ -4,7 +4,7 @@ exit 0  property held on everything explored (KNOWN-FINDING lines allowed)
 exit 1  VIOLATION property=<id> replay=<path> [no-failing-input-found]
 exit 2  undecided (lost anchor, unsupported construct, rlimit, tool failure) -- never an alarm
 """
-import argparse, hashlib, json, os, shutil, sys, tempfile, time, concurrent.futures as cf
+import argparse, subprocess, hashlib, json, os, shutil, sys, tempfile, time, concurrent.futures as cf
 from . import verus as vverus
 from . import kani as vkani
 from . import replay as vreplay
@@ -41,6 +41,8 @@ def matches_known(prop, fail, known):
         if k.get('clause_contains') and k['clause_contains'] not in fail.get('clause', ''):
             continue
         if k.get('harness') and k['harness'] != fail.get('harness'):
+            continue
+        if k.get('harness_contains') and k['harness_contains'] not in (fail.get('harness') or ''):
             continue
         return k
     return None
@@ -281,7 +283,17 @@ def _decide(args, P, seed, scratch, t0):
             viol.append(fl)
     replay_dir = os.path.join(VERIF, 'evidence', 'replays')
     for k, fl in known_hit:
-        print('KNOWN-FINDING: property=%s %s' % (prop, k.get('what', fl['obligation'])))
+        note = ''
+        rp = k.get('replay')
+        if rp:
+            # re-run the recorded failing input against the tree under check
+            try:
+                exe = vreplay.build(REPO, scratch)
+                pr = subprocess.run([exe, rp['driver'], 'replay', str(rp.get('variant', 0)), rp['ops']], capture_output=True, text=True, timeout=600)
+                note = ' [replayed on this tree: %s]' % ('reproduces' if 'FAIL ' in pr.stdout else 'does NOT reproduce: ' + pr.stdout.strip()[:120])
+            except Exception as e:
+                note = ' [replay could not run: %s]' % str(e)[:120]
+        print('KNOWN-FINDING: property=%s %s%s' % (prop, k.get('what', fl['obligation']), note))
     rc = 0
     if viol:
         os.makedirs(replay_dir, exist_ok=True)
